@@ -58,6 +58,11 @@ MUTANTS = {
     'M43-rmtree-helper-stats-dangling-symlinks': ('mesonbuild/utils/universal.py',
                                                   "        os.chmod(d, os.stat(d).st_mode | stat.S_IWRITE | stat.S_IREAD)\n        for fname in files:\n            fpath = os.path.join(d, fname)\n            if not os.path.islink(fpath) and os.path.isfile(fpath):\n                os.chmod(fpath, os.stat(fpath).st_mode | stat.S_IWRITE | stat.S_IREAD)\n",
                                                   "        for path in [d, *(os.path.join(d, fname) for fname in files)]:\n            os.chmod(path, os.stat(path).st_mode | stat.S_IWRITE | stat.S_IREAD)\n"),
+    'M44-subproject-build-copy-shares-override-tables': ('mesonbuild/build.py',
+                                                         "        for k, v in self.__dict__.items():\n            other.__dict__[k] = copy.copy(v)\n        return other\n\n    def copy_for_build_machine",
+                                                         "        shared = {'find_overrides', 'searched_programs', 'dependency_overrides'}\n        for k, v in self.__dict__.items():\n            other.__dict__[k] = v if k in shared else copy.copy(v)\n        return other\n\n    def copy_for_build_machine"),
+    'M45-dependency-cache-key-ignores-search-path-order': ('mesonbuild/coredata.py',
+                                                           "        return tuple(data[type_])\n", "        return tuple(sorted(set(data[type_])))\n"),
 }
 
 
